@@ -751,10 +751,12 @@ func main() {
 		if *depthCoreFlag >= 0 {
 			depthCore = *depthCoreFlag
 		}
-		if c.Quick() {
-			c.Deadline = time.Now().Add(80 * time.Second)
-		} else {
-			c.Deadline = time.Now().Add(14 * time.Minute)
+		own := time.Now().Add(80 * time.Second)
+		if !c.Quick() {
+			own = time.Now().Add(14 * time.Minute)
+		}
+		if own.Before(c.Deadline) {
+			c.Deadline = own // an explicit shorter --deadline wins
 		}
 		c.Rule = "non-trivial = a charged transaction (success or fee-only failure) at position >= 2 of a sequence whose sender or receiver account was modified by an earlier transaction of the sequence (key = configuration + history + letter)"
 		c.Assumptions = []string{
